@@ -627,6 +627,16 @@ class SNum:
     def __repr__(self):
         return "S%s(%s)" % (self.kind, z3.simplify(self.t))
 
+    def __format__(self, spec):
+        """text I/O model: a formatted symbolic number is the token <<term|format-spec>> (one whitespace-free word)"""
+        c = conc(self)
+        if c is not None:
+            return format(float(c) if self.kind == "real" else int(c), spec)
+        return "<<%s|%s>>" % (z3.simplify(self.t).sexpr().replace(" ", "_"), spec)
+
+    def __str__(self):
+        return self.__format__("")
+
     # numpy-ish scalar attributes
     @property
     def real(self): return self
